@@ -10,3 +10,4 @@ open UtilModel UtilModel.Routine
 #print axioms UtilModel.Routine.survivor_state
 #print axioms UtilModel.Routine.C05a_obs
 #print axioms UtilModel.Routine.exited_cancelled
+#print axioms UtilModel.Routine.C05b_obs
